@@ -14,13 +14,15 @@ EXPLANATION = (
     "functions restore bit_reader and writer on their way out; in dispatch every path from an assignment of the local mode to a "
     "return passes a write of self.mode. MODE: the mode switches of dispatch and back cover all variants. ATOM: inflate() turns "
     "Ok into BufError exactly under ((in_read==0 && out_written==0) || flush==Finish). Which copy runs depends on the schedule, "
-    "so disagreement or a lost write-back makes two schedules of one input differ. Arithmetic equality inside siblings is not decided.")
+    "so disagreement or a lost write-back makes two schedules of one input differ. Arithmetic equality inside siblings is not decided. "
+    "PAIR/handover-after-suspension: in every arm, after the local `mode` has been set to another arm no input request (need_bits/pull_byte suspension exit) is reachable inside the same arm - otherwise a split input resumes in the successor and skips the rest of the arm.")
 
 CLAIM = dict(
     text="Static sibling-agreement (set fingerprints over MIR arm regions) of the schedule-selected copies of the symbol "
          "decoder, cut-set proofs that every suspension writes the resume state back, totality of the mode switch, and the "
          "shape of the per-call BufError rule. Necessary conditions of chunking independence; value-level equality of the "
-         "copies is not decided.",
+         "copies is not decided. "
+         "Also: an arm names its successor only after its last input request.",
     note="Trusted: rustc MIR; the sibling exception table (each with a reason) in rules/props/c04.py.",
     technique="sibling fingerprint comparison over MIR arm regions + cut-set (take/restore) analysis",
 )
